@@ -43,6 +43,9 @@ type Harness struct {
 	MaxSymIndex int               `json:"max_sym_index"`
 	IntBitLen   int               `json:"int_bitlen_cap"`
 	AppendSlack bool              `json:"append_slack"`
+	Tactic      string            `json:"check_sat_using"` // z3 tactic for every query, e.g. "qfufbv" (wide bit-vectors: the incremental core is very slow)
+	SymSlices   bool              `json:"sym_slices"` // slices with a symbolic window start instead of forking (symslice.go)
+	LazyMake    int               `json:"lazy_make"` // >0: make() with a symbolic cap that may exceed this materialises only this many elements (intr_lazymake.go)
 	NoMerge     bool              `json:"no_merge"`
 	Overrides   map[string]string `json:"overrides"`
 	Doc         string            `json:"doc"`
@@ -51,6 +54,7 @@ type Harness struct {
 	Totality    bool              `json:"totality"` // unexpected Go panics are violations (default: true)
 	NoNativeReplay bool           `json:"no_native"`
 	Validate    int               `json:"validate"`
+	ReachPairs  [][2]string       `json:"reach_pairs"` // [a,b]: every reached label a+X needs a reached label b+X (else fault)
 	cfg         *TierCfg
 	w           int
 }
@@ -102,6 +106,7 @@ type Suite struct {
 	Outside    []string          `json:"outside"`
 	SolverBin  string            `json:"solver"`
 	InitEagerly []string         `json:"init"`
+	Generate   []string          `json:"generate"` // source generators run on the loaded tree before the final load (gen.go)
 }
 
 type Engine struct {
@@ -164,6 +169,9 @@ func LoadEngine(patterns []string, harnessDir string) (*Engine, error) {
 		return nil, err
 	}
 	// the engine never sees the native body of verifsym: drop files tagged as native-only? (single body is fine)
+	for k, v := range generatedOverlay { // files produced by suite generators (gen.go), never written to disk
+		ov[k] = v
+	}
 	cfg := &packages.Config{
 		Mode:    packages.LoadAllSyntax,
 		Dir:     repoDir,
@@ -325,6 +333,16 @@ type HarnessRun struct {
 	validation                                                     []*Failure
 	seed                                                           int64
 	ufs                                                            map[string]bool
+	outside                                                        map[string]int
+}
+
+func (hr *HarnessRun) noteOutside(n string) {
+	hr.mu.Lock()
+	if hr.outside == nil {
+		hr.outside = map[string]int{}
+	}
+	hr.outside[n]++
+	hr.mu.Unlock()
 }
 
 func (hr *HarnessRun) noteUF(n string) {
@@ -472,6 +490,7 @@ func (e *Engine) RunHarness(s *Suite, h *Harness) *HarnessRun {
 				hr.noteError("solver start: " + err.Error())
 				return
 			}
+			sol.tactic = h.Tactic
 			defer func() {
 				hr.stats.add(&sol.stats)
 				sol.Close()
